@@ -98,17 +98,32 @@ type vScriptEv struct {
 }
 
 // vScript kinds:
-//  0 mesh:    every round, every validator references its own last event and the others' last events of the previous round
-//  1 chain:   self-parent plus the latest event of the next validator only (slow convergence)
-//  2 lagging: like mesh, but the last validator creates an event only every third round
-//  3 fork:    like mesh, and the last validator forks once: two events on the same self-parent, shown to different peers
-//  4 lcg:     pseudo-random parents from a fixed linear congruential sequence
-//  5 triple:  like mesh, and the last validator starts with THREE first events x, y, z; x is received first but never
-//             referenced, the others build on y and z (a fork whose lowest branch is not in any Atropos' ancestry)
+//
+//	0 mesh:    every round, every validator references its own last event and the others' last events of the previous round
+//	1 chain:   self-parent plus the latest event of the next validator only (slow convergence)
+//	2 lagging: like mesh, but the last validator creates an event only every third round
+//	3 fork:    like mesh, and the last validator forks once: two events on the same self-parent, shown to different peers
+//	4 lcg:     pseudo-random parents from a fixed linear congruential sequence
+//	5 triple:  like mesh, and the last validator starts with THREE first events x, y, z; x is received first but never
+//	           referenced, the others build on y and z (a fork whose lowest branch is not in any Atropos' ancestry)
+//	6 lagheavy: like mesh, but the FIRST (heaviest) validator creates an event only every third round
+//	7 lateheavy: the first validator creates an event only every seed-th round, AFTER the others of that round
+//	           and on top of their newest events: it can overtake them and become the first root of two
+//	           consecutive frames with one event (an Atropos elected twice, the second block being empty)
+//	8 twice:   a fixed 22-event DAG over 4 validators found by random search (tools/fs_repeat_search_test.go.txt):
+//	           with equal weights event 9 is the first validator's root in frames 2 and 3 and is elected Atropos
+//	           of both, so the third block has nothing new to deliver
 func vScript(kind, V, rounds int, seed uint32) []vScriptEv {
+	if kind == 8 {
+		return []vScriptEv{{0, -1, nil}, {1, -1, []int{0}}, {2, -1, []int{0, 1}}, {0, 0, []int{1, 2}}, {1, 1, []int{3, 2}},
+			{2, 2, []int{3, 4}}, {3, -1, []int{3, 4, 5}}, {3, 6, []int{3, 5}}, {2, 5, []int{4, 7}}, {0, 3, []int{4, 8, 7}},
+			{1, 4, []int{9, 8, 7}}, {0, 9, []int{10, 8}}, {3, 7, []int{11, 8}}, {2, 8, []int{11, 10, 12}},
+			{3, 12, []int{11, 10, 13}}, {0, 11, []int{10, 13, 14}}, {3, 14, []int{15}}, {2, 13, []int{15, 10, 16}},
+			{3, 16, []int{15, 10, 17}}, {0, 15, []int{17, 18}}, {3, 18, []int{19, 10, 17}}, {0, 19, []int{10, 17, 20}}}
+	}
 	var s []vScriptEv
-	last := make([]int, V)     // latest event per validator (its own view: the branch it continues)
-	shown := make([][]int, V)  // shown[v][u]: which event of u validator v references next
+	last := make([]int, V)    // latest event per validator (its own view: the branch it continues)
+	shown := make([][]int, V) // shown[v][u]: which event of u validator v references next
 	for v := range last {
 		last[v] = -1
 		shown[v] = make([]int, V)
@@ -124,7 +139,14 @@ func vScript(kind, V, rounds int, seed uint32) []vScriptEv {
 	forked := false
 	for r := 0; r < rounds; r++ {
 		prev := append([]int{}, last...)
-		for v := 0; v < V; v++ {
+		for vv := 0; vv < V; vv++ {
+			v := vv
+			if kind == 7 {
+				v = (vv + 1) % V // the first validator comes last in the round
+				if v == 0 && r%int(seed) != int(seed)-1 {
+					continue
+				}
+			}
 			if kind == 2 && v == V-1 && r%3 != 0 {
 				continue
 			}
@@ -150,6 +172,9 @@ func vScript(kind, V, rounds int, seed uint32) []vScriptEv {
 						continue
 					}
 					p := prev[u]
+					if kind == 7 && v == 0 {
+						p = last[u]
+					}
 					if (kind == 3 || kind == 5) && shown[v][u] >= 0 {
 						p = shown[v][u]
 						shown[v][u] = -1
@@ -509,6 +534,9 @@ func (r *vRun) checkBlocks(n *vNode) {
 		for _, x := range wantNew {
 			delivered[x] = true
 		}
+		if len(wantNew) == 0 {
+			sym.Reach("empty-block") // the Atropos was already delivered by an earlier block
+		}
 		// C03: cheaters = validators with two same-seq events in anc*(atropos), canonical order
 		var wantCh []idx.ValidatorID
 		for v := 0; v < r.d.V; v++ {
@@ -597,15 +625,16 @@ func verifFS(kind, V, rounds int, seed uint32) {
 	sym.Reach("fs")
 }
 
-func VerifH_FS_meshV3()    { verifFS(0, 3, 5, 1) }
-func VerifH_FS_chainV3()   { verifFS(1, 3, 9, 1) }
-func VerifH_FS_laggingV3() { verifFS(2, 3, 7, 1) }
-func VerifH_FS_forkV4()    { verifFS(3, 4, 8, 1) }
-func VerifH_FS_forkV3()    { verifFS(3, 3, 8, 1) }
-func VerifH_FS_lcgV3()     { verifFS(4, 3, 7, 7) }
+func VerifH_FS_meshV3()     { verifFS(0, 3, 5, 1) }
+func VerifH_FS_chainV3()    { verifFS(1, 3, 9, 1) }
+func VerifH_FS_laggingV3()  { verifFS(2, 3, 7, 1) }
+func VerifH_FS_forkV4()     { verifFS(3, 4, 8, 1) }
+func VerifH_FS_forkV3()     { verifFS(3, 3, 8, 1) }
+func VerifH_FS_lcgV3()      { verifFS(4, 3, 7, 7) }
 func VerifH_FS_lagheavyV3() { verifFS(6, 3, 10, 1) }
 func VerifH_FS_lagheavyV4() { verifFS(6, 4, 10, 1) }
-func VerifH_FS_tripleV3()  { verifFS(5, 3, 8, 1) }
-func VerifH_FS_tripleV4()  { verifFS(5, 4, 7, 1) }
-func VerifH_FS_meshV4()    { verifFS(0, 4, 5, 1) }
-func VerifH_FS_lcgV4()     { verifFS(4, 4, 7, 3) }
+func VerifH_FS_twiceV4()    { verifFS(8, 4, 0, 0) }
+func VerifH_FS_tripleV3()   { verifFS(5, 3, 8, 1) }
+func VerifH_FS_tripleV4()   { verifFS(5, 4, 7, 1) }
+func VerifH_FS_meshV4()     { verifFS(0, 4, 5, 1) }
+func VerifH_FS_lcgV4()      { verifFS(4, 4, 7, 3) }
